@@ -25,14 +25,14 @@ inductive Act where
   deriving DecidableEq, Repr, Inhabited
 
 /-- the 257th byte of a mode table: how input may end / what is pending in that mode -/
-inductive Fin where
+inductive EndMark where
   | absent   -- table has 256 entries: input may not end here
   | v | a | n | s | other
   deriving DecidableEq, Repr, Inhabited
 
 structure Tables where
   act : Mode → UInt8 → Act
-  fin : Mode → Fin
+  fin : Mode → EndMark
   escByte : UInt8 → UInt8
 
 inductive Item where
@@ -252,7 +252,13 @@ def stepAct (s : St) (b : UInt8) : Except Err (St × Bool) :=
     match stepToken T s b with
     | .error e => .error e
     | .ok s' => .ok (s', false)
-  | .charErr => .error (s.err .byte)
+  | .charErr =>
+    -- `byteError` picks the message by the mode table
+    .error (s.err (match s.mode with
+      | .null => .expNull
+      | .true_ => .expTrue
+      | .false_ => .expFalse
+      | _ => .byte))
   | .unknown => .ok (s, false)
 
 /-- after the switch: a complete top-level value is delivered -/
